@@ -388,7 +388,13 @@ func tagFromBuffer(ifd ifds.Ifd, buf []byte) (t Tag, err error) {
 	unitCount := ifd.ByteOrder.Uint32(buf[4:8])                     // UnitCount
 	valueOffset := ifd.ByteOrder.Uint32(buf[8:12]) + ifd.BaseOffset // ValueOffset
 
-	t = NewTag(tagID, tagIsIfd(ifd.Type, tagID, tagType), unitCount, valueOffset, ifd.Type, ifd.Index, ifd.ByteOrder) // NewTag
+	typ := tagIsIfd(ifd.Type, tagID, tagType)
+	if typ == tag.TypeIfd && tagID == exififd.MakerNote && tagType.Is(tag.TypeUndefined) && unitCount <= 4 {
+		// a maker note of up to four bytes lies in the value slot itself: the slot is not an
+		// offset to follow (it would be a different one in each byte order)
+		typ = tagType
+	}
+	t = NewTag(tagID, typ, unitCount, valueOffset, ifd.Type, ifd.Index, ifd.ByteOrder) // NewTag
 	if !t.IsValid() {
 		err = tag.ErrTagTypeNotValid
 	}
